@@ -167,7 +167,7 @@ func (dist *BinomialDistribution) SetParameters(parameters Vector) error {
 
 func (dist *BinomialDistribution) ImportConfig(config ConfigDistribution, t ScalarType) error {
 
-  if parameters, ok := config.GetParametersAsFloats(); !ok {
+  if parameters, ok := config.GetParametersAsFloats(); !ok || len(parameters) < 2 {
     return fmt.Errorf("invalid config file")
   } else {
     theta := NewScalar(t, parameters[0])
